@@ -107,7 +107,9 @@ def lazy_vs_eager(chk: core.Check, thorough: bool):
                 with uproot.open(p) as f:
                     e1 = f["Event"][name].array()
                 variants = {"step_size=4": lambda: uproot.dask({str(p): "Event/" + name}, step_size=4)[short],
-                            "open_files=False": lambda: uproot.dask({str(p): "Event/" + name}, open_files=False)[short]}
+                            # (with open_files=False uproot does not resolve a path that names a single branch - stock branches behave the
+                            # same -, so the event group is opened and the collection selected by name)
+                            "open_files=False": lambda: uproot.dask({str(p): "Event/" + name.split("/")[0]}, open_files=False, filter_name=[short])[short]}
                 want = {"step_size=4": e1, "open_files=False": e1}
                 if other.exists():
                     with uproot.open(other) as f:
